@@ -194,12 +194,14 @@ Section Server.
     f_outcome : option xkind;   (* None = the task returned normally *)
     f_closed : bool;            (* transport closed when the task ends *)
     f_peer : speer;             (* what the task did not read *)
-    f_now : nat
+    f_now : nat;
+    f_eof : bool                (* ghost: the task ended because the peer closed (receiver raised StopAsyncIteration) *)
   }.
 
   (* the task's exit stack: consumer.clear, aclose_forcefully(transport) *)
-  Definition finish (u : ustate) (x : option xkind) (o : speer) (now : nat) : final :=
-    {| f_user := u; f_outcome := x; f_closed := true; f_peer := o; f_now := now |}.
+  Definition finish_ (eof : bool) (u : ustate) (x : option xkind) (o : speer) (now : nat) : final :=
+    {| f_user := u; f_outcome := x; f_closed := true; f_peer := o; f_now := now; f_eof := eof |}.
+  Definition finish := finish_ false.
 
   Fixpoint client_loop (fuel : nat) (ph : hphase) (t : option nat) (c : C) (o : speer) (now : nat) (u : ustate) : final :=
     match fuel with
@@ -209,7 +211,7 @@ Section Server.
         else
           let '(c', o', now', a) := rq_next t c o now in
           match a with
-          | NStop => finish (hclose ph u) None o' now'
+          | NStop => finish_ true (hclose ph u) None o' now'
           | NSend p =>
               match hresume ph (UReq p) now' u with
               | (u1, HYielded ph' t') => client_loop f ph' t' c' o' now' u1
